@@ -27,5 +27,7 @@ def run(rep):
     rep.notes.append('deductive part: compile_body (conjunction nesting = left-to-right depth-first search); head arguments: exactly the '
                      'once-occurring plain variables are aliased to argN (find_clause_head_variable_arguments against cnt), one alias assignment '
                      'each in position order, the other positions are unified left to right with position 1 outermost and the body innermost '
-                     '(compile_arg_list_unification against wrap), terms become cexpr(term). The composition in compile_function_body (fresh '
-                     'variable declarations), the meaning of aliasing (L-ALIAS) and the emitted text are covered by the bounded stand-ins')
+                     '(compile_arg_list_unification against wrap), terms become cexpr(term); compile_function_body emits the aliases, then exactly one '
+                     'declaration per further head variable and per further body variable (first-occurrence order, sdedupe/sminus), then the head '
+                     'unifications around code whose meaning is the body\'s. The `variables` properties of the AST, the meaning of aliasing (L-ALIAS), '
+                     'compile_program and the emitted text are covered by the bounded stand-ins')
